@@ -76,7 +76,12 @@ partial def parseJV : List String → Option (JV × List String)
         | some (v, r') => items (v :: acc) r'
         | none => none
     items [] r
-  | t :: r => if t.startsWith "s:" then some (.str (t.drop 2).toString, r) else none
+  | t :: r =>
+    if t.startsWith "s:" then some (.str (t.drop 2).toString, r)
+    -- `w:<text>`: `_` stands for a space, `^` for a tab
+    else if t.startsWith "w:" then
+      some (.str (String.ofList ((t.drop 2).toString.toList.map fun c => if c == '_' then ' ' else if c == '^' then '\t' else c)), r)
+    else none
   | [] => none
 
 def showStrs (l : List String) : String := "[" ++ ",".intercalate l ++ "]"
